@@ -25,21 +25,21 @@ PROPS = {
             "claim": "Proof (Lean 4): regular segment membership = included, else not excluded and first matching rule with the weight threshold (missing rollout kind: no match); segment-match clause = any-of over existing segments with negation (under the data-model hypothesis of the property text for the per-kind lists). Tied by segment-stream correspondence."},
     "C06": {"obligations": ["Consts"],
             "claim": "Proof (Lean 4): hash-input layout byte-exact as concatenation for every buffer capacity, 15 hex digits without wrap-around, bucket = float32(v)/2^60 in [0,1], zero/err cases, experiments bucket by key. SHA-1 itself is tested against crypto/sha1 on every case (not proved FIPS). Tied by bit-exact unit correspondence (hook) and public-API rollouts."},
-    "C07": {"obligations": [],
+    "C07": {"obligations": ["Consts"],
             "claim": "Proof (Lean 4): the scan returns the first bucket whose single-precision cumulative threshold exceeds b, else the last; always a listed variation; a zero-weight bucket is never chosen by the scan; growing a bucket never moves a context out of it; same for weighted segment rules. Rests on proved monotonicity/idempotence of float32 rounding (soft-float over rationals). Tied by boundary-placed rollouts."},
     "C08": {"obligations": [],
             "claim": "Proof (Lean 4): inExperiment iff experiment rollout, chosen bucket tracked, context has the kind — on both exits of the selection; IsExperiment iff inExperiment or legacy tracking flags; false for off/target/prerequisite-failed/error. Tied by correspondence on the experiment bits of results and events. A defect on the fallback exit was repaired (fix: b6345ab)."},
-    "C09": {"obligations": [],
+    "C09": {"obligations": ["WriteSet"],
             "claim": "Proof (Lean 4): one-step characterisation of the prerequisite loop (met iff exists, on, exact variation), laziness, one event per completed nested evaluation in post-order, error details recorded, every recorded result equals the standalone evaluation of that flag (chain weakening + fuel monotonicity). Tied by correspondence on events, lookups and result."},
-    "C10": {"obligations": ["Consts"],
+    "C10": {"obligations": ["Stack"],
             "claim": "Proof (Lean 4): termination for every reference graph (pigeonhole on duplicate-free chains), re-entry aborts as MALFORMED_FLAG with no event for aborted frames, a cycle is reported only for a key on the current path (diamonds are not). Tied by graph-shape correspondence to depth 60 with crash/timeout isolation and the stack-by-value obligation."},
-    "C11": {"obligations": ["Status"],
+    "C11": {"obligations": ["Status", "WriteSet"],
             "claim": "Proof (Lean 4): big-segment membership by provider answer under <key>.g<generation>, missing kind / generation cases, status = worst seen and present only if queried or NOT_CONFIGURED, provider queried at most once per context key. Tied by correspondence on status, query and membership-check logs. A double query through prerequisites was repaired (fix: 68555c1)."},
     "C12": {"obligations": ["WriteSet"],
             "claim": "Proof (Lean 4, thin by design): the evaluator as a state machine returns its state unchanged, so any history answers like a fresh evaluator; the decision never depends on per-call state or on logger/recorder options. The content is the tie: histories against one real evaluator with changing stores compared with fresh evaluators, deep input snapshots, and the write-set obligation."},
     "C13": {"obligations": ["WriteSet"], "race": True, "partial": ["the Go memory model and scheduler are outside the model; a race not observed in the explored schedules is not exhibited"],
             "claim": "PARTIAL. Proof (Lean 4) over an abstract shared-memory trace model: read-only shared data implies no conflicting access and every interleaving gives each thread its sequential observations. Tied by the write-set obligation (no shared writes reachable from Evaluate) and by concurrent runs of the real code under the Go race detector compared with sequential baselines."},
-    "C14": {"obligations": ["WriteSet"],
+    "C14": {"obligations": ["WriteSet"], "needs_hooks": True,
             "claim": "Proof (Lean 4): every precomputed table/operand is transparent (key sets, typed equality sets incl. mixed types, regex/timestamp/semver operands), hence whole evaluations agree (evaluate_transparent: full observation equality). Tied by running each configuration in four construction forms on the real code and comparing Preprocess* dumps with the model. A zero-time operand defect was repaired (fix: bd47c6e)."},
     "C15": {"obligations": ["CodecTables", "CodecModelTie"],
             "claim": "Proof (Lean 4) on JSON trees: reference write/read round trips (literal vs path by context kind), decoder-range round trip to a fixed point after one step up to dropped empty rollouts, which cannot influence evaluation. Tied by fixed-point/evaluation-equivalence/builders relations on the real codec and decoder-model correspondence. Open finding F5 (negative debugEventsUntilDate) is listed in KNOWN_FINDINGS.txt."},
